@@ -167,6 +167,39 @@ def ensure_universe(force=False):
         f.write(stamp)
 
 
+def ensure_edits(seed, n, depth):
+    """behaviours of the DocEdit machine under tlc -simulate (seeded by VERIF_SEED), as a paired family"""
+    name = "edits_%d_%d_%d" % (seed, n, depth)
+    path = os.path.join(UNIVERSE, name + ".ndjson")
+    if os.path.exists(path):
+        return name
+    sc = Scratch()
+    try:
+        out = sc.sub("edits")
+        cfg = "SPECIFICATION Spec\nCONSTANT MaxEdits = %d\nINVARIANT WriteOut\nCHECK_DEADLOCK FALSE\n" % depth
+        r = run_tlc(sc, "DocEdit", cfg, env={"JDV_OUT": out}, workers=4, timeout=900,
+                    extra=["-simulate", "num=%d" % max(1, n // 40), "-depth", str(depth + 2), "-seed", str(seed)])
+        src = os.path.join(out, "edits.csv")
+        if not os.path.exists(src):
+            raise Infra("DocEdit simulation produced nothing:\n" + tlc_error_text(r))
+        seen, lines = set(), []
+        for ln in open(src):
+            ln = ln.strip()
+            if not ln or ln in seen:
+                continue
+            seen.add(ln)
+            lines.append(json.dumps(json.loads(json.loads(ln))))
+        import random
+        random.Random(seed).shuffle(lines)         # TLC writes every successor it looks at: take a seeded sample
+        with open(path + ".tmp", "w") as f:
+            f.write("\n".join(lines[:n]) + "\n")
+        os.replace(path + ".tmp", path)
+        log("DocEdit: %d behaviours (seed %d, %d edits)" % (min(len(lines), n), seed, depth))
+    finally:
+        sc.close()
+    return name
+
+
 def build_harness(scratch):
     """Builds the harness against /repo's CURRENT working tree into the scratch dir."""
     hd = os.path.join(scratch.dir, "harness")
